@@ -705,6 +705,24 @@ Definition string_to_time (s : bytes) : option N :=
   | _ => None
   end.
 
+(* strconv.ParseFloat(s, 64) accepts (among others: exponents, hex floats,
+   inf, nan - outside this model) every plain decimal: an optional sign,
+   digits with at most one point and at least one digit; up to 300 octets
+   the value is in range *)
+Fixpoint float_body (s : bytes) (point digit : bool) : bool :=
+  match s with
+  | [] => digit
+  | c :: r => if is_digit c then float_body r point true
+              else if (c =? 46) && negb point then float_body r true digit
+              else false
+  end.
+Definition float_simple (s : bytes) : bool :=
+  (length s <=? 300)%nat &&
+  match s with
+  | c :: r => if (c =? 43) || (c =? 45) then float_body r false false else float_body s false false
+  | [] => false
+  end.
+
 (* hexadecimal numbers: fmt %x / %X with a fixed width, strconv.ParseUint(s, 16, _) *)
 Definition hex_bytes (w : bytes) : bytes := bytes_of_string (hex w).
 Definition is_hexdigit (c : N) : bool :=
@@ -776,6 +794,7 @@ Inductive pfield :=
 | P_type                 (* RRSIG type covered: Type.String / mnemonic in any case, else TYPEnnn *)
 | P_eui (k : nat)         (* EUI48 / EUI64: euiToString / dashed pairs, ParseUint base 16 *)
 | P_nodeid (up : bool)   (* NID / L64: %0.16x, %0.16X in four groups / stringToNodeID *)
+| P_float                (* GPOS: printed verbatim / strconv.ParseFloat must accept it (modelled for plain decimals) *)
 | P_time.                (* RRSIG expiration, inception: TimeToString / StringToTime, else ParseUint 32 *)
 
 (* field values as the Go structs hold them *)
@@ -821,6 +840,7 @@ Definition present_field (f : pfield) (v : pval) : bytes :=
   | P_time, V_time now t => time_to_string now t
   | P_eui k, V_int n => eui_to_string k n
   | P_nodeid up, V_int n => nodeid_to_string up n
+  | P_float, V_word s => s
   | _, _ => []
   end.
 
@@ -951,6 +971,8 @@ Definition read_single (f : pfield) (ts : list tok) : res (pval * list tok) :=
               end
             | P_eui k => match parse_eui k text with Some n => Ok (V_int n) | None => Err "eui" end
             | P_nodeid _ => match parse_nodeid text with Some n => Ok (V_int n) | None => Err "nodeid" end
+            | P_float => if float_simple text then Ok (V_word text)
+                         else if is_nil text then Err "float" else OutOfFuel
             | P_time =>
               match string_to_time text with
               | Some t => Ok (V_int t)
@@ -1012,6 +1034,7 @@ Definition meaning (f : pfield) (v : pval) : option mval :=
   | P_hexsplit, V_word h => Some (M_octets (unhex (string_of_bytes h)))
   | P_mnem _ _, V_int n | P_algnum, V_int n | P_type, V_int n | P_time, V_int n
   | P_eui _, V_int n | P_nodeid _, V_int n => Some (M_int n)
+  | P_float, V_word s => Some (M_octets (unescape s))
   | P_time, V_time _ t => Some (M_int t)
   | _, _ => None
   end.
@@ -1055,6 +1078,7 @@ Definition playout (t : N) : option (list pfield) :=
   else if t =? 51 then Some [P_uint 8; P_uint 8; P_uint 16; P_salt false]
   else if t =? 50 then Some [P_uint 8; P_uint 8; P_uint 16; P_salt true; P_b32; P_types]
   else if t =? 37 then Some [P_mnem MCert 16; P_uint 16; P_mnem MAlg 8; P_b64]
+  else if t =? 27 then Some [P_float; P_float; P_float]
   else if t =? 108 then Some [P_eui 6]
   else if t =? 109 then Some [P_eui 8]
   else if t =? 104 then Some [P_uint 16; P_nodeid false]
